@@ -22,10 +22,11 @@ namespace GeffProps.C03
 open Geff.Np Geff.Dicts Geff.Backends
 
 /-! The definitions the statements use live in `GeffProofs/C03Aux.lean` (they are needed by helper
-lemmas): `Obs` (directed, hasNode, hasEdge, nodeAttr, edgeAttr), `nxObs` / `rxObs` (a backend graph
+lemmas): `Obs` (directed, hasNode, hasEdge, nodeAttr, edgeAttr), `nxObs` / `rxObs` / `sgObs` (a backend graph
 seen through its adapter), `memObs` (the SPECIFICATION: the attribute graph an in-memory geff
 denotes — element `k` has property `name` iff the property exists and `k` is not marked missing,
-with value `values[k]`), `MemEquiv` (same ids, edges, directedness, properties up to their order);
+with value `values[k]`), `MemEquiv` (same ids, edges, directedness, properties up to their order),
+`SgDomain` (the spatial-graph backend's documented domain);
 `MemValid`, `NxDomain`, `RegularVals`, `LeafClass` are in `GeffProofs/Backends.lean` / `Dicts.lean`. -/
 
 /-- **named hypothesis** (property C01, not re-proved here) -/
@@ -66,6 +67,22 @@ theorem C03_backends_agree (m : MemGeff) (h : MemValid m) :
   obtain ⟨gn, h1, h2⟩ := C03_nx_construct m h
   obtain ⟨gr, h3, h4⟩ := C03_rx_construct m h
   exact ⟨gn, gr, h1, h3, h2.trans h4.symm⟩
+
+/-- **C03 (spatial-graph construct, on its documented domain)**: for a valid non-empty geff with
+≥ 1 axis whose axes are scalar, non-missing node properties of one numeric dtype and whose other
+properties are numeric, regular and non-missing (`SgDomain`), `SgBackend.construct` succeeds and
+the graph — axes read back out of `position` as `SgGraphAdapter` does — shows exactly what the geff
+denotes; hence it agrees with networkx and rustworkx.  (Partial for spatial-graph as a whole: the
+reverse direction `SgBackend.write` + unsquish is modelled (`sgWrite`) and tied by the
+correspondence on every spatial-graph case, but its round-trip theorem is not proved here; axes of
+different dtypes are the known finding `C03:sg-mixed-axis-dtypes`.) -/
+theorem C03_sg_construct_partial (m : MemGeff) (names : List String) (h : SgDomain m names) :
+    ∃ gs gn gr, sgConstruct m (some names) = .ok gs ∧ nxConstruct m = .ok gn ∧ rxConstruct m = .ok gr ∧
+      sgObs names gs = memObs m ∧ sgObs names gs = nxObs gn ∧ sgObs names gs = rxObs gr := by
+  obtain ⟨gs, h1, o1⟩ := sgConstruct_spec m names h
+  obtain ⟨gn, h2, o2⟩ := C03_nx_construct m h.valid
+  obtain ⟨gr, h3, o3⟩ := C03_rx_construct m h.valid
+  exact ⟨gs, gn, gr, h1, h2, h3, o1, o1.trans o2.symm, o1.trans o3.symm⟩
 
 /-! ## the dict → array layer: absent stays absent, kind preserved -/
 
@@ -291,6 +308,26 @@ example : RaggedVals .int64 1 1 (present exRag "r") := by
 
 example : (dictPropToArr exRag "r").toOption.map (fun c => (c.varlen, c.entry 0, c.entry 1, c.entry 2)) =
     some (true, some (.arr [2] [.i 1, .i 2]), none, some (.arr [1] [.i 7])) := by decide
+
+/-- non-vacuity for spatial-graph: two nodes, axes `y`, `x` (float64) and an int16 attribute -/
+def exSg : MemGeff :=
+  { directed := true, nodeIds := [3, 9], edgeIds := [(9, 3)],
+    nodeProps := [("y", ⟨.f64, false, [([], [.f "000000000000f03f"]), ([], [.f "0000000000000040"])], none⟩),
+                  ("x", ⟨.f64, false, [([], [.f "0000000000000000"]), ([], [.f "0000000000000840"])], none⟩),
+                  ("lab", ⟨.i16, false, [([], [.i 1]), ([], [.i 2])], none⟩)],
+    edgeProps := [("w", ⟨.f32, false, [([], [.f "000000000000e03f"])], none⟩)] }
+
+example : (sgConstruct exSg (some ["y", "x"])).toOption.map
+    (fun g => (g.nodeAttr ["y", "x"] 9 "x", g.nodeAttr ["y", "x"] 9 "lab", g.edgeAttr (9, 3) "w", g.position)) =
+    some (some (.sc (.f "0000000000000840")), some (.sc (.i 2)), some (.sc (.f "000000000000e03f")),
+          [[.f "000000000000f03f", .f "0000000000000000"], [.f "0000000000000040", .f "0000000000000840"]]) := by
+  decide
+
+/-- known finding `C03:sg-mixed-axis-dtypes`: with an integer time axis next to a float axis the
+model leaves its domain (numpy promotes the stacked position) -/
+example : (sgConstruct { exSg with nodeProps := ("t", ⟨.i64, false, [([], [.i 0]), ([], [.i 1])], none⟩) :: exSg.nodeProps }
+    (some ["t", "x"])).map (fun _ => ()) = .error (.unmodelled "axes of different dtypes are promoted") := by
+  decide
 
 /-- D2 as it was before the repair: with the old fill (int `0` for a bool) numpy's inference on
 `[True, 0]` is int64 and `True` is stored as the integer 1 — the kind changes.  This is the fact
